@@ -1,0 +1,12 @@
+//go:build !verif
+
+// Package verifhook provides pause points and event logging used by external
+// verification machinery. Without the "verif" build tag every function is an
+// empty, inlinable no-op.
+package verifhook
+
+// At marks a named point in the code. It does nothing without the verif tag.
+func At(point string) {}
+
+// Event records a named event. It does nothing without the verif tag.
+func Event(point string, kv ...any) {}
